@@ -633,3 +633,5 @@ V("C05", "minuit-start-clamped", "fire", "C05.R3", "Minuit start values clamped 
   (OMI, "        minuit = iminuit.Minuit(wrapped_objective, init_pars, grad=jac, name=par_names)", "        init_pars = [min(max(v, lo + 1e-4 * (hi - lo)), hi - 1e-4 * (hi - lo)) for v, (lo, hi) in zip(init_pars, init_bounds)]\n        minuit = iminuit.Minuit(wrapped_objective, init_pars, grad=jac, name=par_names)"))
 V("C05", "fit-all-false-mask", "fire", "C05.R1", "an all-False mask is treated as no mask",
   ("src/pyhf/infer/mle.py", "    fixed_params = fixed_params or pdf.config.suggested_fixed()", "    fixed_params = fixed_params if (fixed_params is not None and any(fixed_params)) else pdf.config.suggested_fixed()"))
+V("C13", "code4-exponent-mask-strict", "fire", "C13.R3", "code 4 takes exponent 1 (a constant) exactly at |alpha| = alpha0",
+  ("src/pyhf/interpolators/code4.py", "            exponents >= self.__alpha0, exponents, self.ones", "            exponents > self.__alpha0, exponents, self.ones"))
